@@ -547,6 +547,7 @@ def enable_line_points(extra_files=()):
     files = {PA.__file__, PS.__file__, shutil.__file__} | set(extra_files)
     _line_state["files"] = files
     if _line_state["on"]:
+        mon.restart_events()
         return True
 
     def on_line(code, line):
@@ -564,6 +565,8 @@ def enable_line_points(extra_files=()):
         return False
     mon.register_callback(_LINE_TOOL, mon.events.LINE, on_line)
     mon.set_events(_LINE_TOOL, mon.events.LINE)
+    # locations that returned DISABLE under an earlier, smaller file set stay disabled until restarted
+    mon.restart_events()
     _line_state["on"] = True
     return True
 
